@@ -124,6 +124,9 @@ theorem kill_during_recovery_converges {d : Disk} (h : Reach d) {evs p : List Ev
   · rw [b]; show (applyAll d p).blocks.length = d.blocks.length; rw [hb]
   · rw [e, hb]
 
+example : Reach world1 ∧ newNode world1.toCore = .ok (hs2, applyAllCore world1.toCore hs2) ∧
+    hs2.take 3 <+: hs2 := ⟨reach_world1, world1_newNode, List.take_prefix _ _⟩
+
 /-- In every reachable world the stored chain is hash-chained and the state's hash is the hash of
 its prefix: each header carries the application hash after the previous block (what
 `ValidateBlock` and the replay's hash assertions check). -/
@@ -180,6 +183,8 @@ theorem recovers_partial {d : Disk} (h : Reach d) :
   intro hg
   simp only [live, replays, hw, hp, hst, Bool.or_eq_true, Bool.and_eq_true, Bool.not_eq_true']
   exact hg
+
+example : Reach world1 ∧ world1.pv.le ⟨world1.store + 1, 0, 1⟩ = true := ⟨reach_world1, rfl⟩
 
 /-- The FIRST kill of a chain, exactly.  Whatever the uncrashed node was doing (any heights, any
 transactions, any rounds) and wherever it is killed, the restart converges, and the validator
